@@ -16,7 +16,8 @@ import (
 )
 
 // -1 and 1 collide with the private empty-bound sentinel {(1,1),(-1,-1)}; the others expose it.
-var coords = []float64{5, -3, 2, 0, -1, 1, 3, 7, -2, 4, 6}
+// the pair (0,0) is in the list: the zero point / zero bound is a value, not a marker for "unset"
+var coords = []float64{5, -3, 2, 0, 0, 0, -1, 1, 3, 7, -2, 4, 6}
 
 func addrs(g orb.Geometry) map[uintptr]bool {
 	m := map[uintptr]bool{}
